@@ -1,9 +1,9 @@
 //! C01 — the audio callback is real-time safe and its output well-formed.
 //!
 //! A *scene* is pure data (`Scene`): manager settings, main-track effects and a list of operations
-//! (play static / probe sounds, add sub / send / spatial tracks with every built-in effect, clocks,
-//! LFOs, tweeners, probe modulators, listeners, commands on random handles incl. effect handles,
-//! handle drops, device callbacks).  It is executed on the REAL kira code through the public API;
+//! (play static / streaming / probe sounds, add sub / send / spatial tracks with every built-in effect,
+//! clocks, LFOs, tweeners, probe modulators, listeners, commands on random handles incl. effect
+//! handles, handle drops, device callbacks).  It is executed on the REAL kira code through the public API;
 //! the `Renderer` lives on a dedicated audio thread, so "on the audio thread" is literal:
 //!   * heap allocations / frees are counted on that thread while a callback runs,
 //!   * probe sounds / effects / modulators record the thread on which their `Drop` ran,
@@ -37,6 +37,7 @@ use kira::modulator::lfo::{LfoBuilder, LfoHandle, Waveform};
 use kira::modulator::tweener::{TweenerBuilder, TweenerHandle};
 use kira::modulator::{Modulator, ModulatorBuilder, ModulatorId};
 use kira::sound::static_sound::{StaticSoundHandle, StaticSoundSettings};
+use kira::sound::streaming::{Decoder, StreamingSoundData, StreamingSoundHandle};
 use kira::sound::{PlaybackPosition, Region, Sound, SoundData};
 use kira::track::{MainTrackBuilder, SendTrackBuilder, SendTrackHandle, SpatialTrackBuilder, SpatialTrackHandle, TrackBuilder, TrackHandle};
 use kira::{Capacities, Decibels, Easing, Frame, Mapping, Mix, Panning, PlaybackRate, StartTime, Tween, Value};
@@ -174,6 +175,9 @@ struct CmdSpec {
 #[derive(Clone, Debug, PartialEq)]
 enum Op {
 	Play(PlaySpec),
+	/// streaming sound over an in-memory decoder (its decoder thread runs freely: only drawn with
+	/// documented-range values, see `Gen::op`)
+	PlayStream { frames: FramesSpec, ssr: u32, packet: usize, vol: f32, pan: f32, rate: f64, looped: Option<(f64, f64)>, on: Option<u64> },
 	/// user-defined `Sound` that is finished after `len` frames; its `Drop` records the thread
 	PlayProbe { len: u64, on: Option<u64> },
 	AddSub(SubSpec),
@@ -296,6 +300,38 @@ impl SoundData for SndProbeData {
 		Ok((Box::new(self.0), ()))
 	}
 }
+/// in-memory decoder for streaming sounds; `Drop` records the thread (it must be the decoder thread or the caller's)
+struct MemDecoder {
+	log: Arc<ProbeLog>,
+	frames: Vec<Frame>,
+	pos: usize,
+	sr: u32,
+	packet: usize,
+}
+impl Decoder for MemDecoder {
+	type Error = ();
+	fn sample_rate(&self) -> u32 {
+		self.sr
+	}
+	fn num_frames(&self) -> usize {
+		self.frames.len()
+	}
+	fn decode(&mut self) -> Result<Vec<Frame>, ()> {
+		let end = (self.pos + self.packet.max(1)).min(self.frames.len());
+		let v = self.frames[self.pos..end].to_vec();
+		self.pos = end;
+		Ok(v)
+	}
+	fn seek(&mut self, index: usize) -> Result<usize, ()> {
+		self.pos = index.min(self.frames.len());
+		Ok(self.pos)
+	}
+}
+impl Drop for MemDecoder {
+	fn drop(&mut self) {
+		self.log.dropped("stream decoder");
+	}
+}
 struct ModProbe {
 	log: Arc<ProbeLog>,
 	left: u64,
@@ -329,6 +365,7 @@ impl ModulatorBuilder for ModProbeBuilder {
 // ------------------------------------------------------------------------------------------------
 enum H {
 	Sound(StaticSoundHandle),
+	Stream(StreamingSoundHandle<()>),
 	Track(TrackHandle),
 	Spatial(SpatialTrackHandle),
 	Send(SendTrackHandle),
@@ -553,6 +590,26 @@ fn exec_scene(sc: &Scene, want_cases: bool) -> SceneResult {
 						hs.push(H::Sound(h));
 					}
 				}
+				Op::PlayStream { frames, ssr, packet, vol, pan, rate, looped, on } => {
+					let dec = MemDecoder { log: log.clone(), frames: frames.expand(), pos: 0, sr: (*ssr).max(1), packet: *packet };
+					let mut data = StreamingSoundData::from_decoder(dec).volume(Decibels(*vol)).panning(Panning(*pan)).playback_rate(PlaybackRate(*rate));
+					if let Some((a, b)) = looped {
+						data = data.loop_region(Region::from(*a..*b));
+					}
+					let tracks: Vec<usize> = hs.iter().enumerate().filter(|(_, h)| matches!(h, H::Track(_))).map(|(i, _)| i).collect();
+					let hnd = match (on, tracks.is_empty()) {
+						(Some(sel), false) => {
+							let i = tracks[(*sel % tracks.len() as u64) as usize];
+							if let H::Track(t) = &mut hs[i] { t.play(data).ok() } else { None }
+						}
+						_ => m.play(data).ok(),
+					};
+					if let Some(h) = hnd {
+						hs.push(H::Stream(h));
+						// give the decoder thread a moment to fill the ring buffer
+						std::thread::sleep(Duration::from_micros(400));
+					}
+				}
 				Op::PlayProbe { len, on } => {
 					let data = SndProbeData(SndProbe { log: log.clone(), left: *len, _payload: vec![1u8; 64] });
 					let tracks: Vec<usize> = hs.iter().enumerate().filter(|(_, h)| matches!(h, H::Track(_))).map(|(i, _)| i).collect();
@@ -657,6 +714,17 @@ fn exec_scene(sc: &Scene, want_cases: bool) -> SceneResult {
 									let a = c.u * 0.005;
 									s.set_loop_region(Region::from(a..a + 0.002))
 								}
+							},
+							H::Stream(s) => match w % 9 {
+								0 => s.pause(tw),
+								1 => s.resume(tw),
+								2 => s.stop(tw),
+								3 => s.set_volume(Decibels(c.db), tw),
+								4 => s.set_playback_rate(PlaybackRate(c.rate), tw),
+								5 => s.set_panning(Panning(c.pan), tw),
+								6 => s.seek_to(c.seek),
+								7 => s.seek_by(c.seek - 0.01),
+								_ => s.resume_at(tw.start_time, Tween { start_time: StartTime::Immediate, ..tw }),
 							},
 							H::Track(t) => match w % 4 {
 								0 => t.pause(tw),
@@ -1240,7 +1308,14 @@ fn attribute(sc: &Scene, first: Fail, secs: f64, hangs_left: &mut u32) -> Verdic
 		}
 		let Some((c, s2)) = next else {
 			// no listed trigger left: a failure of its own
-			let scene = if fail.kind == "hang" { cur } else { minimise(&cur, &fail, secs, hangs_left) };
+			if fail.kind == "hang" {
+				// a watchdog expiry must reproduce (the machine may be heavily loaded); a real hang always does
+				if let (_, None) = outcome(&cur, secs, hangs_left) {
+					return Verdict { scene: cur, fail, class: None, detail: "not reproduced", trail };
+				}
+				return Verdict { scene: cur, fail, class: None, detail: "", trail };
+			}
+			let scene = minimise(&cur, &fail, secs, hangs_left);
 			return Verdict { scene, fail, class: None, detail: "", trail };
 		};
 		used.insert((c.name, c.detail));
@@ -1579,7 +1654,17 @@ impl<'a> Gen<'a> {
 			},
 			11 | 12 | 13 => Op::Cmd(self.cmd()),
 			14 => Op::DropHandle { sel: self.r.next() },
-			15 => Op::PlayProbe { len: self.r.below(40), on: if self.r.chance(1, 2) { Some(self.r.next()) } else { None } },
+			15 => {
+				if !self.boundary && self.r.chance(1, 2) {
+					// streaming sounds only with documented-range values: their decoder thread is not paced,
+					// so a failure in such a scene must not depend on a counterfactual re-run
+					let n = self.r.below(400) as usize;
+					let looped = if self.r.chance(1, 3) { Some((0.0, (self.r.below(n as u64 + 1) + 1) as f64 / sc.sr as f64)) } else { None };
+					Op::PlayStream { frames: FramesSpec { n, kind: *self.r.pick(&[0u8, 1, 3, 7]), seed: self.r.next() }, ssr: *self.r.pick(&[sc.sr, 22050, 8000]), packet: *self.r.pick(&[1usize, 7, 64, 1000]), vol: (self.r.unit_f64() * 30.0 - 30.0) as f32, pan: self.pan(), rate: *self.r.pick(&[1.0, 0.5, 2.0, 1.5]), looped, on: if self.r.chance(1, 2) { Some(self.r.next()) } else { None } }
+				} else {
+					Op::PlayProbe { len: self.r.below(40), on: if self.r.chance(1, 2) { Some(self.r.next()) } else { None } }
+				}
+			}
 			_ => self.callback(sc.ibs),
 		}
 	}
@@ -1884,6 +1969,11 @@ fn out_stage_cases(s: &mut Session, rng: &mut Rng, count: u64) {
 }
 
 fn report(s: &mut Session, label: &str, v: Verdict) {
+	if v.class.is_none() && v.detail == "not reproduced" {
+		s.count("watchdog_expiry_not_reproduced");
+		s.notes.push(format!("{label}: the watchdog expired once but the same scene then ran to completion in time (machine load); not counted as a failure"));
+		return;
+	}
 	let case = format!("{label}: {}{:?}", v.trail, v.scene);
 	s.count(&format!("failure_{}_{}{}{}", v.fail.kind, v.class.unwrap_or("UNATTRIBUTED"), if v.detail.is_empty() { "" } else { ": " }, v.detail));
 	s.fail(case, v.fail.what, v.class);
@@ -1933,10 +2023,10 @@ pub fn run(args: &Args) {
 		"From Coq Require Import ZArith List. Import ListNotations. Open Scope Z_scope.\nFrom KV Require Import Base.Corr C01.Run.",
 		"run",
 		150,
-		"scenes (pure data, printed in full on failure): an AudioManager with random capacities / internal buffer / sample rate, main-track effects, then operations (play static sounds with drawn volume, panning, rate incl. negative, loop, slice, start position, fade-in, delayed / clock start; probe sounds that finish; sub / send / spatial tracks with every built-in effect incl. nested delay feedback effects; clocks; LFOs, tweeners, probe modulators linked to parameters; listeners; commands on random handles incl. effect handles with random tweens; handle drops; device callbacks of 0..3b+40 frames and 1..8 channels) in three streams: well-formed (documented ranges), boundary (0, -0, denormals, +-1e300, -60 dB, zero / huge durations, empty / inverted regions, out-of-range slices, capacity 0) and directed scenarios (finish while paused, backwards through loops, churn, clock-timed starts, short tweens, finishing modulators, vanishing send tracks); the Renderer runs on its own audio thread; observed per callback: panic, hang (watchdog), heap allocations / frees on the audio thread, thread of every probe Drop, on_start_processing count and chunk sequence, every sample written, finite, in [-1,1], extra channels silent; model cases: output stage on a unit-gain sound, output stage on the recorded mixer bus, callback step list (allocations, frees, starts, chunk lengths); distinct = scene seed; non-trivial = at least one callback rendered",
+		"scenes (pure data, printed in full on failure): an AudioManager with random capacities / internal buffer / sample rate, main-track effects, then operations (play static sounds with drawn volume, panning, rate incl. negative, loop, slice, start position, fade-in, delayed / clock start; streaming sounds over an in-memory decoder (documented-range values only); probe sounds that finish; sub / send / spatial tracks with every built-in effect incl. nested delay feedback effects; clocks; LFOs, tweeners, probe modulators linked to parameters; listeners; commands on random handles incl. effect handles with random tweens; handle drops; device callbacks of 0..3b+40 frames and 1..8 channels) in three streams: well-formed (documented ranges), boundary (0, -0, denormals, +-1e300, -60 dB, zero / huge durations, empty / inverted regions, out-of-range slices, capacity 0) and directed scenarios (finish while paused, backwards through loops, churn, clock-timed starts, short tweens, finishing modulators, vanishing send tracks); the Renderer runs on its own audio thread; observed per callback: panic, hang (watchdog), heap allocations / frees on the audio thread, thread of every probe Drop, on_start_processing count and chunk sequence, every sample written, finite, in [-1,1], extra channels silent; model cases: output stage on a unit-gain sound, output stage on the recorded mixer bus, callback step list (allocations, frees, starts, chunk lengths); distinct = scene seed; non-trivial = at least one callback rendered",
 	);
 	out_stage_cases(&mut s, &mut rng, n / 3);
-	let mut hangs_left = 12u32 * args.budget_mul as u32;
+	let mut hangs_left = (if args.thorough { 150u32 } else { 12 }) * args.budget_mul as u32;
 	let wd = 2.5;
 	// ---- witnesses of the findings
 	for (class, desc, sc) in corpus() {
